@@ -72,6 +72,7 @@ type scen struct {
 	xview    bool     // scenario of the xview family (ext_xview_test.go; split is set as well)
 	catchup  bool     // scenario of the catchup family (ext_catchup_test.go; split is set as well)
 	lag      int      // catchup: blocks the others produce while the laggard lags
+	reqtx    bool     // scenario of the reqtx family (ext_reqtx_test.go; split is set as well)
 }
 
 // Replay artefact / violation detail.
@@ -89,6 +90,7 @@ type caseRec struct {
 	Split    *splitSpec   `json:"split,omitempty"`   // split family: the scripted prefix the events came from
 	XView    *xviewSpec   `json:"xview,omitempty"`   // xview family (ext_xview_test.go): the scripted prefix the events came from
 	Catchup  *catchupSpec `json:"catchup,omitempty"` // catchup family (ext_catchup_test.go): the scripted prefix the events came from
+	ReqTx    *reqSpec     `json:"reqtx,omitempty"`   // reqtx family (ext_reqtx_test.go): the scripted prefix the events came from
 }
 
 // probeRec is one execution in flight (a file in <dir>/inflight while it
@@ -103,6 +105,7 @@ type probeRec struct {
 	Split   *splitSpec   `json:"split,omitempty"`
 	XView   *xviewSpec   `json:"xview,omitempty"`
 	Catchup *catchupSpec `json:"catchup,omitempty"`
+	ReqTx   *reqSpec     `json:"reqtx,omitempty"`
 }
 
 func (p probeRec) label() string {
@@ -113,6 +116,8 @@ func (p probeRec) label() string {
 		return "xview:" + p.Scen + ":" + p.XView.String()
 	case "catchup":
 		return "catchup:" + p.Scen + ":" + p.Catchup.String()
+	case "reqtx":
+		return "reqtx:" + p.Scen + ":" + p.ReqTx.String()
 	}
 	return p.Scen + ":" + p.Sched.Compact()
 }
@@ -624,6 +629,16 @@ func scenarios(r *vk.Run, dir string) ([]*scen, error) {
 		sc.deep = true
 		out = append(out, sc)
 	}
+	// The reqtx family (ext_reqtx_test.go): a setup of its own (its catalogue is
+	// larger; the gossip alternatives of the other scenarios must not change).
+	famR, err := netx.NewSetup(netx.Family{Name: "n4req", N: 4}, dir)
+	if err != nil {
+		return nil, err
+	}
+	if err := netx.ExtendReqCatalogue(famR); err != nil {
+		return nil, err
+	}
+	out = append(out, reqScens(famR)...)
 	if r.Thorough() || os.Getenv("C19_N7") != "" {
 		fam7, err := netx.NewSetup(netx.Family{Name: "n7", N: 7}, dir)
 		if err != nil {
@@ -700,6 +715,8 @@ func TestCheck(t *testing.T) {
 			res, _, _ = runXView(t, sc, *pr.XView, newConfStats())
 		case pr.Kind == "catchup" && pr.Catchup != nil:
 			res, _, _ = runCatchup(t, sc, *pr.Catchup, newConfStats())
+		case pr.Kind == "reqtx" && pr.ReqTx != nil:
+			res, _, _ = runReqTx(t, sc, *pr.ReqTx, newConfStats())
 		case pr.Sched != nil:
 			res = run(t, sc, *pr.Sched, runOpts{})
 		default:
@@ -719,6 +736,9 @@ func TestCheck(t *testing.T) {
 		}
 		fmt.Println("probe:", pr.label(), res.End, res.Err)
 		os.Exit(0)
+	}
+	if one := os.Getenv("C19_REQTX"); one != "" {
+		reqOne(t, scs, one) // development aid: one reqtx prefix, verbose
 	}
 	if one := os.Getenv("C19_CATCHUP"); one != "" {
 		// development aid: one catchup prefix (JSON catchupSpec), verbose
@@ -857,9 +877,21 @@ func TestCheck(t *testing.T) {
 		level[sc.Name] = []Sched{{Scen: sc.Name}}
 	}
 	boundaryRuns := 0
-	var splitCov, algebraCov, xviewCov, catchupCov map[string]any
+	var splitCov, algebraCov, xviewCov, catchupCov, reqCov map[string]any
 	for b := 0; b <= 2; b++ {
 		if b == 1 && os.Getenv("C19_FAMILIES") != "off" {
+			// the request family first (cheap): real network.Server between dBFT and the transactions
+			reqCov = exploreReqTx(t, r, scs, &running)
+			fmt.Printf("C19: reqtx family: %v of %v specs run, %v deliveries to real servers (%v handed to consensus, %v of them refused by the pool), %v distinct outcomes, %.0fs elapsed\n", reqCov["specs_run"], reqCov["specs"], reqCov["server_deliveries"], reqCov["deliveries_handed_to_consensus"], reqCov["of_them_refused_by_the_backups_own_pool"], reqCov["distinct_outcomes"], r.Elapsed())
+			if n, ok := reqCov["specs_run"].(int); ok {
+				schedules.Add(n)
+			}
+			if n, ok := reqCov["events"].(int); ok {
+				transitions.Add(n)
+			}
+			if os.Getenv("C19_FAMILIES") == "reqtx" { // development aid
+				break
+			}
 			// the recovery class (directed families; they always run, whatever level 0 found)
 			if os.Getenv("C19_FAMILIES") != "catchup" { // (development aid: the catchup family alone)
 				algebraCov = exploreAlgebra(t, r, scs)
@@ -1078,6 +1110,12 @@ func TestCheck(t *testing.T) {
 		"family_split":                   splitCov,
 		"family_xview":                   xviewCov,
 		"family_catchup":                 catchupCov,
+		"family_reqtx":                   reqCov,
+		"reqtx_specs_run":                reqCov["specs_run"],
+		"reqtx_distinct_outcomes":        reqCov["distinct_outcomes"],
+		"reqtx_server_deliveries":        reqCov["server_deliveries"],
+		"reqtx_deliveries_handed_to_consensus":         reqCov["deliveries_handed_to_consensus"],
+		"reqtx_handed_to_consensus_but_refused_by_pool": reqCov["of_them_refused_by_the_backups_own_pool"],
 		"catchup_specs_run":              catchupCov["specs_run"],
 		"catchup_distinct_outcomes":      catchupCov["distinct_outcomes"],
 		"catchup_runs_with_loop_held":    catchupCov["runs_with_loop_held"],
@@ -1167,6 +1205,8 @@ func replay(t *testing.T, r *vk.Run, scs []*scen) {
 			res, _, _ = runXView(t, sc, *c.XView, newConfStats())
 		case c.Catchup != nil: // the participation oracle needs the whole scripted run
 			res, _, _ = runCatchup(t, sc, *c.Catchup, newConfStats())
+		case c.ReqTx != nil:
+			res, _, _ = runReqTx(t, sc, *c.ReqTx, newConfStats())
 		case len(c.Events) == 0 && c.Split != nil:
 			res, _, _ = runSplit(t, sc, *c.Split, newConfStats())
 		default:
@@ -1241,7 +1281,7 @@ func supervise() {
 			continue
 		}
 		var pr probeRec
-		if json.Unmarshal(bs, &pr) != nil || (pr.Sched == nil && pr.Split == nil && pr.XView == nil && pr.Catchup == nil) {
+		if json.Unmarshal(bs, &pr) != nil || (pr.Sched == nil && pr.Split == nil && pr.XView == nil && pr.Catchup == nil && pr.ReqTx == nil) {
 			continue
 		}
 		var out bytes.Buffer
@@ -1290,6 +1330,8 @@ func supervise() {
 				r.Violation(fmt.Sprintf("%s:xview:%s:%s", what, pr.Scen, pr.XView.String()), caseRec{Oracle: what, Scenario: pr.Scen, N: n, Schedule: pr.XView.String(), Text: txt, XView: pr.XView})
 			case "catchup":
 				r.Violation(fmt.Sprintf("%s:catchup:%s:%s", what, pr.Scen, pr.Catchup.String()), caseRec{Oracle: what, Scenario: pr.Scen, N: n, Schedule: pr.Catchup.String(), Text: txt, Catchup: pr.Catchup})
+			case "reqtx":
+				r.Violation(fmt.Sprintf("%s:reqtx:%s:%s", what, pr.Scen, pr.ReqTx.String()), caseRec{Oracle: what, Scenario: pr.Scen, N: n, Schedule: pr.ReqTx.String(), Text: txt, ReqTx: pr.ReqTx})
 			default:
 				s := *pr.Sched
 				r.Violation(fmt.Sprintf("%s:%d:%d:%s:%s", what, n, len(s.Devs), s.Scen, s.Compact()), caseRec{Oracle: what, Scenario: s.Scen, N: n, Bound: len(s.Devs), Schedule: s.Compact(), Devs: s.Devs, Text: txt})
